@@ -28,12 +28,12 @@ def run(chk):
               b"f\xc3\xa9", b"a [gnu-linux- linux-]", b"foo (= <1)", b"foo (>= =1)", b"a <!x !y> <z>", b"a:any [!i386 !amd64] (<< 2~) <a> <!b c>"]
     pc = [("dparse", [t]) for t in texts]
     pi, pm = chk.run_both(pc)
-    chk.compare("parse", pc, pi, pm)
+    chk.compare("parse", pc, pi, pm, spec=False)                 # the property is the round trip, judged below on the implementation
     acc = [(t, p) for t, p in zip(texts, pi) if p.startswith("ok")]
     chk.extra["accepted"] = len(acc)
     rc = [("drt", [t]) for t, _ in acc]
     ri, rm = chk.run_both(rc)
-    chk.compare("render-reparse", rc, ri, rm)
+    chk.compare("render-reparse", rc, ri, rm, spec=False)
     cc = [("dcontrol", [t]) for t, _ in acc]
     ci = chk.run_impl(cc)
     chk.record("control-interface", cc, ci)
@@ -57,7 +57,7 @@ def run(chk):
     names += [gen.rand_bytes(rng, 10, [b"a", b"-", b"any", b"all", b"gnu", b"linux", b"\xff", b" "]) for _ in range(chk.n(2000, 40000))]
     ac = [("art", [n]) for n in names]
     ai, am = chk.run_both(ac)
-    chk.compare("arch-names", ac, ai, am, nontrivial=lambda c, r: True)
+    chk.compare("arch-names", ac, ai, am, nontrivial=lambda c, r: True, spec=False)
     cc = [("acontrol", [n]) for n in names]
     ci = chk.run_impl(cc)
     chk.record("arch-control-interface", cc, ci, lambda c, r: True)
